@@ -621,6 +621,7 @@ type TCPConn struct {
 	consumed int
 	wdl      time.Time
 	wnotify  chan struct{}
+	wlock    chan struct{} // write lock of the connection (see Write)
 	paused   bool   // scripted endpoint that has stopped reading: arrivals queue in in.buf
 	outPend    []byte // coalescing: written at this instant, not yet cut into segments
 	flushSched bool
@@ -880,11 +881,22 @@ func (c *TCPConn) Write(p []byte) (int, error) {
 		return 0, &net.OpError{Op: "write", Net: "tcp", Err: syscall.EPIPE}
 	}
 	if c.wnd > 0 && !scripted && !c.N.K.Free {
+		if c.wlock == nil {
+			c.wlock = make(chan struct{}, 1)
+		}
+		wl := c.wlock
 		c.mu.Unlock()
 		if c.N.Obs != nil {
 			c.N.Obs.TCPWrite(c, p) // what the server means to send, at the instant it acts
 		}
-		return c.writeWindowed(p)
+		// one Write at a time, whole: a socket's write lock is held until the last byte is in
+		// the send buffer, so two goroutines writing to one connection never interleave inside
+		// a call, however long the window keeps one of them waiting (a channel, not a mutex:
+		// a goroutine waiting here is durably blocked for the bubble)
+		wl <- struct{}{}
+		n, err := c.writeWindowed(p)
+		<-wl
+		return n, err
 	}
 	off := c.wrote
 	c.wrote += len(p)
@@ -932,7 +944,15 @@ func (c *TCPConn) writeWindowed(p []byte) (int, error) {
 		}
 		c.peer.mu.Lock()
 		room := c.wnd - (c.wrote - c.peer.consumed)
+		peerGone := c.peer.closed && c.in.finArrived
 		c.peer.mu.Unlock()
+		if peerGone && room <= 0 {
+			// the other end has closed its socket (not just its sending side): nothing will ever
+			// open the window again, and a real stack answers the window probes with a reset
+			c.mu.Unlock()
+			err = &net.OpError{Op: "write", Net: "tcp", Err: syscall.ECONNRESET}
+			break
+		}
 		if room > 0 {
 			n := len(p) - written
 			if n > room {
